@@ -539,25 +539,17 @@ theorem assemble_layout_ghost (H : Hooks) (compress : Bool) (items : List Item) 
         simp only [hb, Option.map_some, Option.some.injEq] at hp ⊢
         omega
 
-/-- **The label table is exact, item by item.**  In every successful assembly the output splits into
-    one run of blobs per SOURCE item, in source order (`parts[i]` is what `items[i]` contributed:
-    `Img items[i] parts[i]` - nothing for a label / constant, one blob of the documented size for a data
-    item, one blob of 2 / 4 bytes for an instruction, one or two such blobs for a pseudo-instruction,
-    fewer than `a` zero bytes for `align a`; `C09.Img.bytes_of_blobs`), the binary is their
-    concatenation, and THE VALUE OF EVERY LABEL IS THE NUMBER OF BYTES CONTRIBUTED BY THE ITEMS IN FRONT
-    OF IT.  (So a result that puts every label at 0 satisfies this only if nothing is emitted before
-    any label.) -/
-theorem assemble_layout (H : Hooks) (compress : Bool) (items : List Item) (r : AsmResult)
-    (hnn : NonNeg items)
-    (h : assembleItems H compress items [] [] = .ok r) :
-    ∃ parts : List (List Item), parts.length = items.length ∧
-      (∀ x ∈ parts.flatten, ∃ line d, x = .blob line d) ∧
-      r.bytes = blobBytes parts.flatten ∧
+/-- from the ghost list to the partition: if `Gf` is the output with the label markers still in place,
+    one run per source item, then `strip Gf` (the blobs alone) splits into one run per source item and
+    a label's value is the number of bytes in the runs in front of it -/
+theorem layout_of_ghost {items Gf : List Item} {labels : Dict}
+    (hexp : Expands items Gf) (hob : OnlyBlobs Gf) (hnames : labelNames Gf = labelNames items)
+    (hnd : (labelNames items).Nodup)
+    (hlab : ∀ ℓ ∈ labelNames items, labels.get ℓ = (bytesBefore Gf ℓ).map (fun (k : Nat) => Int.ofNat k)) :
+    ∃ parts : List (List Item), parts.length = items.length ∧ parts.flatten = strip Gf ∧
       (∀ i (hi : i < items.length) (hp : i < parts.length), Img items[i] parts[i]) ∧
-      (labelNames items).Nodup ∧
       ∀ i (hi : i < items.length) line ℓ, items[i] = .label line ℓ →
-        r.labels.get ℓ = some ((blobBytes (parts.take i).flatten).length : Int) := by
-  obtain ⟨Gf, hexp, hob, hnames, hnd, hbytes, hlab⟩ := assemble_layout_ghost H compress items r hnn h
+        labels.get ℓ = some ((blobBytes (parts.take i).flatten).length : Int) := by
   obtain ⟨gp, glen, gflat, gimg, glabel, gother⟩ := expands_label_parts hexp hnames
   -- the runs without their markers
   have hstripflat : ∀ l : List (List Item), (l.map strip).flatten = strip l.flatten := by
@@ -565,15 +557,7 @@ theorem assemble_layout (H : Hooks) (compress : Bool) (items : List Item) (r : A
     induction l with
     | nil => rfl
     | cons a t ih => simp only [List.map_cons, List.flatten_cons, strip_append, ih]
-  have hmem : ∀ x ∈ strip Gf, ∃ line d, x = .blob line d := by
-    intro x hx
-    simp only [strip, List.mem_filter] at hx
-    rcases hob x hx.1 with ⟨l, n, rfl⟩ | hb
-    · simp [Item.isLabel] at hx
-    · exact hb
-  refine ⟨gp.map strip, by simp [glen], ?_, ?_, ?_, hnd, ?_⟩
-  · rw [hstripflat, ← gflat]; exact hmem
-  · rw [hstripflat, ← gflat, blobBytes_strip]; exact hbytes
+  refine ⟨gp.map strip, by simp [glen], by rw [hstripflat, ← gflat], ?_, ?_⟩
   · intro i hi hp
     have hp' : i < gp.length := by simpa using hp
     simp only [List.getElem_map]
@@ -612,5 +596,40 @@ theorem assemble_layout (H : Hooks) (compress : Bool) (items : List Item) (r : A
     have : blobBytes ((gp.map strip).take i).flatten = blobBytes (gp.take i).flatten := by
       rw [← List.map_take, hstripflat, blobBytes_strip]
     rw [this]; rfl
+
+
+theorem strip_onlyBlobs {Gf : List Item} (hob : OnlyBlobs Gf) : ∀ x ∈ strip Gf, ∃ line d, x = .blob line d := by
+  intro x hx
+  simp only [strip, List.mem_filter] at hx
+  rcases hob x hx.1 with ⟨l, n, rfl⟩ | hb
+  · simp [Item.isLabel] at hx
+  · exact hb
+
+/-- **The label table is exact, item by item.**  In every successful assembly the output splits into
+    one run of blobs per SOURCE item, in source order (`parts[i]` is what `items[i]` contributed:
+    `Img items[i] parts[i]` - nothing for a label / constant, one blob of the documented size for a data
+    item, one blob of 2 / 4 bytes for an instruction, one or two such blobs for a pseudo-instruction,
+    fewer than `a` zero bytes for `align a`; `C09.Img.bytes_of_blobs`), the binary is their
+    concatenation, and THE VALUE OF EVERY LABEL IS THE NUMBER OF BYTES CONTRIBUTED BY THE ITEMS IN FRONT
+    OF IT.  (So a result that puts every label at 0 satisfies this only if nothing is emitted before
+    any label.)
+    NOTE: `parts` is constrained here by `Img` only (an instruction may be read as 2 or 4 bytes), so the
+    byte counts are not yet those of the real output.  The STRONG form, in which `parts.flatten` IS the
+    list `out` of final blobs of the anchored frame, is `assemble_layout_framed` (Props/C03Program.lean). -/
+theorem assemble_layout (H : Hooks) (compress : Bool) (items : List Item) (r : AsmResult)
+    (hnn : NonNeg items)
+    (h : assembleItems H compress items [] [] = .ok r) :
+    ∃ parts : List (List Item), parts.length = items.length ∧
+      (∀ x ∈ parts.flatten, ∃ line d, x = .blob line d) ∧
+      r.bytes = blobBytes parts.flatten ∧
+      (∀ i (hi : i < items.length) (hp : i < parts.length), Img items[i] parts[i]) ∧
+      (labelNames items).Nodup ∧
+      ∀ i (hi : i < items.length) line ℓ, items[i] = .label line ℓ →
+        r.labels.get ℓ = some ((blobBytes (parts.take i).flatten).length : Int) := by
+  obtain ⟨Gf, hexp, hob, hnames, hnd, hbytes, hlab⟩ := assemble_layout_ghost H compress items r hnn h
+  obtain ⟨parts, hlen, hflat, himg, hval⟩ := layout_of_ghost hexp hob hnames hnd hlab
+  refine ⟨parts, hlen, ?_, ?_, himg, hnd, hval⟩
+  · rw [hflat]; exact strip_onlyBlobs hob
+  · rw [hflat, blobBytes_strip]; exact hbytes
 
 end BB.Props.C03
